@@ -207,7 +207,7 @@ def parse_info(s, extra=()):
 
 
 class EnumShort(Suite):
-    """All strings of length <= 4 over the 13 symbols & = , + % 2 C c g a ; NUL e-acute, each under the 4
+    """All strings of length <= 4 (quick) / <= 5 (thorough) over the 13 symbols & = , + % 2 C c g a ; NUL e-acute, each under the 4
     combinations of keep_blank x csv: parse_query_string vs the statement-derived reference (and vs
     urllib.parse.parse_qsl for csv=False), req.params / query_string / has_param / get_param /
     get_param_as_list on a WSGI Request and an ASGI Request built with those options, plus the documented
@@ -218,7 +218,7 @@ class EnumShort(Suite):
     budget = {'quick': 1, 'thorough': 1}
 
     def cases(self, tier):
-        for n in range(0, 5):
+        for n in range(0, 5 if tier == 'quick' else 6):
             for t in itertools.product(ALPHABET, repeat=n):
                 yield {'s': ''.join(t)}
 
@@ -263,7 +263,7 @@ class RandomLong(Suite):
     enum_short under all 4 option combinations."""
 
     name = 'random_long'
-    budget = {'quick': 8000, 'thorough': 400000}
+    budget = {'quick': 8000, 'thorough': 250000}
 
     def strategy(self, tier):
         return st.builds(
@@ -677,7 +677,7 @@ class TypedGetters(Suite):
     returned object and nothing on error; no other exception may escape."""
 
     name = 'typed_getters'
-    budget = {'quick': 12000, 'thorough': 400000}
+    budget = {'quick': 10000, 'thorough': 250000}
 
     def strategy(self, tier):
         return _getter_case()
@@ -726,7 +726,7 @@ class RoundTrip(Suite):
     string the same way; the rendered text is RFC 3986 query-safe ASCII."""
 
     name = 'to_query_str_roundtrip'
-    budget = {'quick': 8000, 'thorough': 200000}
+    budget = {'quick': 6000, 'thorough': 150000}
 
     def strategy(self, tier):
         return st.builds(
